@@ -311,7 +311,7 @@ def replay(doc):
 
 
 def jobs(tier, seed):
-    n, shards = (12000, 8) if tier == "quick" else (240000, 16)
+    n, shards = (12000, 8) if tier == "quick" else (1000000, 16)
     out = []
     for k in range(shards):
         out.append({"name": "random-%d" % k, "kind": "random", "java": k % 2 == 1,
